@@ -1,403 +1,44 @@
-"""C15 -- remote calls: protocol skeleton (engine E6a).
+"""C15 -- remote calls: protocol skeleton.
 Decides stub/handler agreement, exception containment, exactly-one-reply and
-request/reply pairing.  Does not decide payload equality or concurrency.
+request/reply pairing by abstract interpretation of the client and the server
+on a modelled connection.  Does not decide payload equality or concurrency.
 """
-import ast
-
-from ..core import AnalysisError, unparse, norm_stmt
-from ..facts import (get_facts, always_exits, may_exit, handler_catches,
-                     enclosing_try_bodies, calls_in, stmt_of)
+from .. import api_model
 
 REMOTE = 'supp/remote.py'
 SERVER = 'supp/server.py'
 
 EXPLANATION = (
-    'Static protocol-skeleton rules over supp/remote.py and supp/server.py: R1 every client '
-    'stub that calls self._call(name, ...) has a Server method of that name accepting that '
-    'arity, and the server method hands the stub parameters, by position, to the same-named '
-    'parameters of the in-process API function (after the documented nstr/tuple '
-    'normalisations) and returns its result (lint rows trimmed); R2 Server.process runs the '
-    'dispatch inside try/except Exception returning ((class, message), False) and the client '
-    'raises with the server message; R3 on every non-close request the server loop attempts '
-    'exactly one send_bytes, serialisation and send are inside non-escaping handlers, and the '
-    'fallback reply is a serialisable constant; R4 _call sends once then receives once on the '
-    'same connection. Payload equality and ordering under concurrent callers are NOT decided.')
-TECHNIQUE = 'AST signature/arity agreement + handler-containment and must-pass-through path rules'
-
-API = {'assistant': 'supp/assistant.py', 'linter': 'supp/linter.py'}
-NORMALISERS = ('nstr', 'tuple')
-
-
-def params_of(fn, skip_self=True):
-    a = fn.args
-    pos = [x.arg for x in a.posonlyargs + a.args]
-    if skip_self and pos and pos[0] == 'self':
-        pos = pos[1:]
-    ndef = len(a.defaults)
-    required = len(pos) - ndef
-    return pos, required, a.vararg is not None, a.kwarg is not None
+    'Abstract interpretation (sa/absint.py, sa/api_model.py) of supp/remote.py Environment and supp/server.py Server on a '
+    'modelled connection: dumps/loads are an opaque pack/unpack pair that refuses unserialisable values, the connection is a '
+    'scripted queue with injectable send failures, end of stream and garbage, the in-process API modules are recording stubs. '
+    'R1 every public client stub is called with distinguishable arguments; the request it sends is handed to the interpreted '
+    'Server.run, which must serve it without error, and every argument must arrive at the same-named parameter of the '
+    'in-process API function (position as a tuple), inside project.check_changes(), the reply carrying the API result (lint '
+    'rows trimmed to four fields); configure must build the Project from the configuration. R2 a handler that raises, an '
+    'unknown method and rejected arguments each give exactly one ((class name, message), False) reply, the loop goes on, and '
+    'the client raises an exception carrying the message. R3 every request gets exactly one reply; an unserialisable result '
+    'gets the constant error reply; a failing send does not end the loop. R4 _call sends one (name, args, kwargs) request, '
+    'then consumes one reply; sequential calls pair in order. Payload equality through the real serialiser is C14; '
+    'concurrent callers are NOT decided.')
+TECHNIQUE = 'abstract interpretation of client and server on a modelled connection with injected faults'
 
 
 def run(repo, res):
-    facts = get_facts(repo)
     env = repo.klass(REMOTE, 'Environment')
     srv = repo.klass(SERVER, 'Server')
-    srv_methods = {n.name: n for n in srv.body if isinstance(n, ast.FunctionDef)}
-
-    # ---------------- R1 stub / handler agreement -----------------------
-    stubs = 0
-    for m in env.body:
-        if not isinstance(m, ast.FunctionDef):
-            continue
-        for c in calls_in(m):
-            if unparse(c.func) != 'self._call':
-                continue
-            if not c.args or not isinstance(c.args[0], ast.Constant):
-                raise AnalysisError('%s: _call with a computed method name' % m.name)
-            stubs += 1
-            rname = c.args[0].value
-            key = 'stub %s -> %s' % (m.name, rname)
-            h = srv_methods.get(rname)
-            if not res.check('C15-R1', key + ' exists', h is not None, REMOTE, c.lineno,
-                             'client stub %s calls remote method %r but Server has no such method'
-                             % (m.name, rname), nontrivial=False):
-                continue
-            hp, hreq, hvar, hkw = params_of(h)
-            npos = len(c.args) - 1
-            kws = [k.arg for k in c.keywords]
-            ok = (hreq <= npos + len([k for k in kws if k in hp]) and (npos <= len(hp) or hvar)
-                  and all(k in hp or hkw for k in kws if k is not None))
-            res.check('C15-R1', key + ' arity', ok, REMOTE, c.lineno,
-                      'stub %s sends %d positional argument(s) %s to Server.%s%s'
-                      % (m.name, npos, kws or '', rname, tuple(hp)),
-                      sample='%s(%s) -> Server.%s(%s)' % (m.name, ', '.join(unparse(a) for a in c.args[1:]),
-                                                          rname, ', '.join(hp)))
-            # stub returns the reply
-            st = stmt_of(c)
-            res.check('C15-R1', key + ' returns reply', isinstance(st, ast.Return) and st.value is c,
-                      REMOTE, c.lineno, 'stub %s must return the reply of _call unchanged' % m.name,
-                      nontrivial=False)
-            # positional link: stub parameter -> server parameter
-            sp, _, _, _ = params_of(m)
-            link = {}
-            for i, a in enumerate(c.args[1:]):
-                if isinstance(a, ast.Name) and a.id in sp and i < len(hp):
-                    link[hp[i]] = a.id
-                elif isinstance(a, ast.Constant):
-                    continue
-                else:
-                    res.check('C15-R1', key + ' arg %d' % i, False, REMOTE, c.lineno,
-                              'stub %s passes a transformed argument %s' % (m.name, unparse(a)))
-            if rname in ('assist', 'location', 'lint'):
-                check_server_method(repo, res, facts, h, rname, link)
-    res.count('client_stubs', stubs, floor=5)
-    # configure: a fresh Project from the given configuration on every path (a later request must equal what the
-    # in-process API returns on a project built from *this* configuration)
-    cfg = srv_methods.get('configure')
-    if cfg is None:
-        raise AnalysisError('Server.configure vanished')
-    stores = [n for n in ast.walk(cfg) if isinstance(n, ast.Assign) and unparse(n.targets[0]) == 'self.project']
-    early = may_exit(cfg.body[:-1] if cfg.body else [], (ast.Return,)) if len(cfg.body) > 1 else None
-    ok = (len(stores) == 1 and stores[0] is cfg.body[-1] and early is None and isinstance(stores[0].value, ast.Call)
-          and unparse(stores[0].value.func) == 'Project' and "config['sources']" in unparse(cfg)
-          and 'dyn_modules' in unparse(stores[0].value))
-    res.check('C15-R1', 'Server.configure builds the project from the configuration', ok, SERVER, cfg.lineno,
-              'Server.configure must replace the session project by Project(config[\'sources\'], dyn_modules=...) on every '
-              'path; a path that keeps the old project makes later replies differ from the in-process result for the same '
-              'configuration', sample='configure: self.project = Project(config[...]) unconditionally')
-
-    # ---------------- R2 containment -------------------------------------
-    proc = srv_methods.get('process')
-    if proc is None:
-        raise AnalysisError('Server.process vanished')
-    dispatch = [c for c in calls_in(proc)
-                if isinstance(c.func, ast.Call) and unparse(c.func.func) == 'getattr']
-    if len(dispatch) != 1:
-        # also accept a two-step form: m = getattr(self, name); m(*args, **kwargs)
-        dispatch = [c for c in calls_in(proc) if any(isinstance(a, ast.Starred) for a in c.args)]
-    if len(dispatch) != 1:
-        raise AnalysisError('Server.process: dispatch call not recognised')
-    d = dispatch[0]
-    getattrs = [c for c in calls_in(proc) if unparse(c.func) == 'getattr']
-    tries = enclosing_try_bodies(d, proc)
-    ok = False
-    hline = d.lineno
-    for t in tries:
-        if all(enclosing_try_bodies(g, proc) for g in getattrs):
-            for hd in t.handlers:
-                if handler_catches(hd):
-                    hline = hd.lineno
-                    reraises = may_exit(hd.body, (ast.Raise,))
-                    ok = not reraises
-                    break
-    res.check('C15-R2', 'Server.process dispatch', ok, SERVER, hline,
-              'the method lookup and call in Server.process must sit in a try whose handler '
-              'catches Exception and does not re-raise (a failing request must not kill the server)',
-              sample='getattr(self, name)(*args, **kwargs) inside try/except Exception')
-    # handler result shape: (class name, str(e)), flag False
-    shape_ok = False
-    if ok:
-        for t in tries:
-            for hd in t.handlers:
-                if not handler_catches(hd) or not hd.name:
-                    continue
-                assigns = {unparse(s.targets[0]): s.value for s in hd.body if isinstance(s, ast.Assign)}
-                rets = [s for s in ast.walk(proc) if isinstance(s, ast.Return)]
-                for r in rets:
-                    if isinstance(r.value, ast.Tuple) and len(r.value.elts) == 2:
-                        a, b = r.value.elts
-                        av = assigns.get(unparse(a), a)
-                        bv = assigns.get(unparse(b), b)
-                        msg = isinstance(av, ast.Tuple) and len(av.elts) == 2 and \
-                            unparse(av.elts[1]) in ('str(%s)' % hd.name, 'repr(%s)' % hd.name,
-                                                    '%s.args[0]' % hd.name)
-                        flag = isinstance(bv, ast.Constant) and bv.value is False
-                        shape_ok = bool(msg and flag)
-    res.check('C15-R2', 'Server.process error reply', shape_ok, SERVER, hline,
-              'on failure process() must return ((class name, str(e)), False)')
-    # the ok path returns flag True
-    call = repo.method(REMOTE, 'Environment', '_call')
-    raises = [n for n in ast.walk(call) if isinstance(n, ast.Raise)]
-    ok = False
-    for r in raises:
-        # guarded by not is_ok
-        p = r
-        while p is not None and not isinstance(p, ast.If):
-            p = getattr(p, '_parent', None)
-        if p is None or r.exc is None:
-            continue
-        in_else = any(r is s or r in ast.walk(s) for s in p.orelse)
-        cond = unparse(p.test)
-        neg = (cond == 'is_ok' and in_else) or (cond in ('not is_ok', 'is_ok is False', 'is_ok == False') and not in_else)
-        if neg and 'result' in unparse(r.exc):
-            ok = True
-    res.check('C15-R2', 'client raises with server message', ok, REMOTE, call.lineno,
-              'Environment._call must raise an exception built from the server\'s (class, message) '
-              'pair when the reply flag is false')
-    rets = [n for n in ast.walk(call) if isinstance(n, ast.Return)]
-    res.check('C15-R2', 'client returns result', any(unparse(r.value) == 'result' for r in rets if r.value),
-              REMOTE, call.lineno, '_call must return the result unmodified when the flag is true',
-              nontrivial=False)
-
-    # ---------------- R3 one reply per request; loop survives -------------
-    runm = srv_methods.get('run')
-    if runm is None:
-        raise AnalysisError('Server.run vanished')
-    loops = [n for n in runm.body if isinstance(n, ast.While)]
-    if len(loops) != 1:
-        raise AnalysisError('Server.run: expected one top-level loop')
-    loop = loops[0]
-    # locate the request branch: the If testing args[0] == 'close'
-    close_if = None
-    for n in ast.walk(loop):
-        if isinstance(n, ast.If) and isinstance(n.test, ast.Compare) and 'close' in unparse(n.test):
-            close_if = n
-    if close_if is None:
-        raise AnalysisError("Server.run: no test for the 'close' request")
-    req = close_if.orelse if "== 'close'" in unparse(close_if.test) else close_if.body
-    if not req:
-        # fall-through form: if close: ...break ; <request statements follow>
-        parent_body = getattr(close_if._parent, 'body', [])
-        idx = parent_body.index(close_if)
-        req = parent_body[idx + 1:]
-    sends = [c for s in req for c in calls_in(s)
-             if isinstance(c.func, ast.Attribute) and c.func.attr in ('send_bytes', 'send')]
-    inloop = [c for c in sends if any(isinstance(p, (ast.For, ast.While)) for p in parents_until(c, loop))]
-    res.check('C15-R3', 'one send per request', len(sends) == 1 and not inloop, SERVER,
-              sends[0].lineno if sends else close_if.lineno,
-              'exactly one reply (send_bytes) must be attempted per non-close request; found %d'
-              % len(sends), sample='request branch of Server.run has %d send site(s)' % len(sends))
-    for c in sends:
-        tr = enclosing_try_bodies(c, loop)
-        ok = any(any(handler_catches(h) and not may_exit(h.body, (ast.Raise, ast.Break, ast.Return))
-                     for h in t.handlers) for t in tr)
-        res.check('C15-R3', 'send failure contained', ok, SERVER, c.lineno,
-                  'a failing send_bytes must be caught without leaving the loop (later requests '
-                  'must still be answered)')
-    dumps_calls = [c for s in req for c in calls_in(s) if unparse(c.func) in ('dumps', 'umsgpack.dumps', 'packb')]
-    primary = [c for c in dumps_calls if not in_handler(c, loop)]
-    fallback = [c for c in dumps_calls if in_handler(c, loop)]
-    for c in primary:
-        tr = enclosing_try_bodies(c, loop)
-        # packing can fail with more than PackException (UnicodeEncodeError for a lone surrogate, RecursionError for a
-        # self-containing list, struct.error): the handler must catch Exception
-        ok = any(any(handler_catches(h, ('Exception', 'BaseException'))
-                     and not may_exit(h.body, (ast.Raise, ast.Break, ast.Return))
-                     for h in t.handlers) for t in tr)
-        res.check('C15-R3', 'serialisation failure contained', ok, SERVER, c.lineno,
-                  'serialising the reply must be inside a try whose handler substitutes an error '
-                  'reply and stays in the loop')
-    res.check('C15-R3', 'fallback reply exists', len(fallback) >= 1, SERVER, close_if.lineno,
-              'a result that cannot be serialised must be answered with a fallback error reply',
-              nontrivial=False)
-    for c in fallback:
-        ok = len(c.args) == 1 and serialisable_const(c.args[0]) and error_shape(c.args[0])
-        res.check('C15-R3', 'fallback reply constant', ok, SERVER, c.lineno,
-                  'the serialisation-error fallback must be a constant ((name, message), False) '
-                  'made only of str/bool/tuple so that it can itself be serialised: %s'
-                  % unparse(c.args[0]))
-    # the process() call result is what is serialised, and nothing on the request path leaves the loop
-    leave = may_exit(req, (ast.Break, ast.Return, ast.Raise))
-    res.check('C15-R3', 'request path stays in loop', leave is None, SERVER,
-              leave.lineno if leave else close_if.lineno,
-              'no break/return/raise may be reachable on the non-close request path of Server.run')
-    pc = [c for s in req for c in calls_in(s) if unparse(c.func) == 'self.process']
-    res.check('C15-R3', 'request is processed once', len(pc) == 1, SERVER, close_if.lineno,
-              'each request must be dispatched exactly once through self.process', nontrivial=False)
-    if pc and not enclosing_try_bodies(pc[0], loop):
-        res.note('Server.run: `args[0]` and `self.process(*args)` are outside any try: a decodable '
-                 'request that is not a 3-sequence would end the loop. The client always sends '
-                 '(name, args, kwargs), so this is outside the stated request domain (note only).')
-
-    # ---------------- R4 pairing in the client ---------------------------
-    order = []
-    for n in ast.walk(call):
-        if isinstance(n, ast.Call) and isinstance(n.func, ast.Attribute) \
-                and n.func.attr in ('send_bytes', 'recv_bytes'):
-            order.append((n.lineno, n.col_offset, n.func.attr, unparse(n.func.value)))
-    order.sort()
-    kinds = [o[2] for o in order]
-    conns = {o[3] for o in order}
-    top_level = all(stmt_of_in(call, o[0]) for o in order)
-    res.check('C15-R4', '_call send/recv pairing', kinds == ['send_bytes', 'recv_bytes'] and len(conns) == 1
-              and top_level, REMOTE, call.lineno,
-              '_call must perform one send_bytes followed by one recv_bytes on the same connection, '
-              'unconditionally; found %s on %s' % (kinds, sorted(conns)),
-              sample='_call: %s' % kinds)
-    # request tuple shape (name, args, kwargs) matches process(name, args, kwargs)
-    sends_c = [n for n in ast.walk(call) if isinstance(n, ast.Call) and isinstance(n.func, ast.Attribute)
-               and n.func.attr == 'send_bytes']
-    ok = False
-    if sends_c and sends_c[0].args and isinstance(sends_c[0].args[0], ast.Call) and sends_c[0].args[0].args:
-        t = sends_c[0].args[0].args[0]
-        pp, _, _, _ = params_of(proc)
-        ok = isinstance(t, ast.Tuple) and [unparse(e) for e in t.elts] == pp == ['name', 'args', 'kwargs']
-    res.check('C15-R4', 'request tuple shape', ok, REMOTE, call.lineno,
-              'the request sent by _call must be (name, args, kwargs), the parameters of Server.process')
-    # reply unpack shape
-    ok = any(isinstance(n, ast.Assign) and isinstance(n.targets[0], ast.Tuple)
-             and [unparse(e) for e in n.targets[0].elts] == ['result', 'is_ok']
-             and 'recv_bytes' in unparse(n.value) for n in ast.walk(call))
-    res.check('C15-R4', 'reply tuple shape', ok, REMOTE, call.lineno,
-              'the reply must be unpacked as (result, is_ok), what Server.process returns', nontrivial=False)
+    server = api_model.server_model(repo)
+    client = api_model.client_model(repo)
+    n = api_model.apply(res, client, {'stub': 'C15-R1', 'stub-count': 'C15-R1'}, REMOTE, env.lineno)
+    res.count('client_stub_obligations', n, floor=15)
+    api_model.apply(res, server, {'handler': 'C15-R1', 'configure': 'C15-R1'}, SERVER, srv.lineno)
+    api_model.apply(res, server, {'error': 'C15-R2'}, SERVER, srv.lineno)
+    api_model.apply(res, [r for r in client if 'error reply' in r[1]], {'call': 'C15-R2'}, REMOTE, env.lineno)
+    n = api_model.apply(res, server, {'reply': 'C15-R3', 'fallback': 'C15-R3', 'send': 'C15-R3'}, SERVER, srv.lineno)
+    res.count('server_scenarios', n, floor=5)
+    api_model.apply(res, [r for r in client if 'error reply' not in r[1]], {'call': 'C15-R4'}, REMOTE, env.lineno)
     res.assumptions.extend([
-        'multiprocessing.connection delivers whole messages in order (stdlib)',
-        'equality of remote and in-process results is not decided; only the argument/return wiring',
+        'dumps/loads round-trip every value the serialiser accepts (C14) and raise on the others',
+        'the connection delivers whole messages in order (multiprocessing.connection)',
+        'one caller at a time (interleavings of callers on one connection are C16)',
     ])
-
-
-def parents_until(node, stop):
-    out = []
-    p = getattr(node, '_parent', None)
-    while p is not None and p is not stop:
-        out.append(p)
-        p = getattr(p, '_parent', None)
-    return out
-
-
-def in_handler(node, stop):
-    p, child = getattr(node, '_parent', None), node
-    while p is not None and p is not stop:
-        if isinstance(p, ast.ExceptHandler):
-            return True
-        child, p = p, getattr(p, '_parent', None)
-    return False
-
-
-def stmt_of_in(fn, lineno):
-    for s in fn.body:
-        if s.lineno <= lineno <= getattr(s, 'end_lineno', s.lineno):
-            return not isinstance(s, (ast.If, ast.For, ast.While, ast.Try))
-    return False
-
-
-def serialisable_const(e):
-    if isinstance(e, ast.Constant):
-        return isinstance(e.value, (str, bool, int, bytes, float)) or e.value is None
-    if isinstance(e, (ast.Tuple, ast.List)):
-        return all(serialisable_const(x) for x in e.elts)
-    return False
-
-
-def error_shape(e):
-    return (isinstance(e, ast.Tuple) and len(e.elts) == 2 and isinstance(e.elts[0], ast.Tuple)
-            and len(e.elts[0].elts) == 2 and isinstance(e.elts[1], ast.Constant)
-            and e.elts[1].value is False)
-
-
-def check_server_method(repo, res, facts, h, rname, link):
-    """The server method must call the same-named API function with the stub's
-    parameters in the API's own parameter order."""
-    key = 'Server.%s' % rname
-    api_calls = []
-    for c in calls_in(h):
-        if isinstance(c.func, ast.Attribute) and isinstance(c.func.value, ast.Name) \
-                and c.func.value.id in API:
-            api_calls.append(c)
-    if not res.check('C15-R1', key + ' calls API', len(api_calls) == 1, SERVER, h.lineno,
-                     'Server.%s must call the in-process API exactly once' % rname, nontrivial=False):
-        return
-    c = api_calls[0]
-    mod, fname = c.func.value.id, c.func.attr
-    res.check('C15-R1', key + ' API function', fname == rname and
-              mod == {'assist': 'assistant', 'location': 'assistant', 'lint': 'linter'}[rname],
-              SERVER, c.lineno, 'Server.%s must call %s.%s, calls %s.%s'
-              % (rname, {'lint': 'linter'}.get(rname, 'assistant'), rname, mod, fname))
-    api = repo.module_func(API[mod], fname)
-    ap, areq, _, _ = params_of(api, skip_self=False)
-    ok = True
-    msgs = []
-    for i, a in enumerate(c.args):
-        if i >= len(ap):
-            ok = False
-            msgs.append('too many arguments')
-            break
-        want = ap[i]
-        e = a
-        while isinstance(e, ast.Call) and unparse(e.func) in NORMALISERS and len(e.args) == 1:
-            e = e.args[0]
-        txt = unparse(e)
-        if want == 'project':
-            good = txt == 'self.project'
-        else:
-            good = isinstance(e, ast.Name) and link.get(e.id) == want
-        if not good:
-            ok = False
-            msgs.append('argument %d (%s) feeds API parameter %r but carries stub parameter %r'
-                        % (i, unparse(a), want, link.get(txt, txt)))
-    for k in c.keywords:
-        e = k.value
-        while isinstance(e, ast.Call) and unparse(e.func) in NORMALISERS and len(e.args) == 1:
-            e = e.args[0]
-        if k.arg in ap and isinstance(e, ast.Name) and link.get(e.id) != k.arg:
-            ok = False
-            msgs.append('keyword %s carries %s' % (k.arg, unparse(e)))
-    if len(c.args) + len(c.keywords) < areq:
-        ok = False
-        msgs.append('missing required API arguments')
-    res.check('C15-R1', key + ' argument order', ok, SERVER, c.lineno,
-              'Server.%s -> %s.%s%s: %s' % (rname, mod, fname, tuple(ap), '; '.join(msgs) or 'ok'),
-              sample='Server.%s passes %s to %s.%s%s' % (rname, [unparse(a) for a in c.args], mod, fname,
-                                                         tuple(ap)))
-    # position normalisation: tuples arrive as lists; API indexes/compares positions as tuples
-    if rname in ('assist', 'location'):
-        posarg = [a for a in c.args if 'position' in unparse(a)]
-        res.check('C15-R1', key + ' position normalised', bool(posarg) and unparse(posarg[0]).startswith('tuple('),
-                  SERVER, c.lineno, 'the position (a list on the wire) must be converted back to a tuple',
-                  nontrivial=False)
-    # result: returned unmodified, or (lint) trimmed rows
-    st = stmt_of(c)
-    if isinstance(st, ast.Return) and st.value is c:
-        good = rname != 'lint' or True
-        res.check('C15-R1', key + ' result', True, SERVER, st.lineno, 'result returned unmodified', nontrivial=False)
-    elif isinstance(st, ast.Return) and isinstance(st.value, ast.ListComp) and st.value.generators[0].iter is c:
-        lc = st.value
-        v = unparse(lc.generators[0].target)
-        good = (rname == 'lint' and not lc.generators[0].ifs and len(lc.generators) == 1
-                and unparse(lc.elt) in ('%s[:4]' % v, 'tuple(%s[:4])' % v, 'list(%s[:4])' % v))
-        res.check('C15-R1', key + ' result', good, SERVER, st.lineno,
-                  'Server.lint may only trim each diagnostic to its first four fields (the fifth is an '
-                  'unserialisable flow object); found %s' % unparse(lc))
-    else:
-        res.check('C15-R1', key + ' result', False, SERVER, st.lineno if st else h.lineno,
-                  'Server.%s must return the API result (found `%s`)' % (rname, norm_stmt(st) if st else '?'))
